@@ -182,7 +182,7 @@ TABLE["C09"] = {
     "level_note": "Assumed: rustc renders types outside the family by the same grammar; distinct token lists spell distinct strings.",
 }
 TABLE["C10"] = {
-    "pipelines": [SIG_PIPE, {"name": "enc-x86-debug", "cmd": ["enc-x86"], "n_quick": 10, "n_thorough": 10}, HIST_PIPE],
+    "pipelines": [SIG_PIPE, {"name": "enc-x86-debug", "cmd": ["enc-x86"], "n_quick": 10, "n_thorough": 10, "may_be_empty": True}, HIST_PIPE],
     "fail_keys": ["c10.", "c01.follow"],
     "filter_prefix": ["boolgate", "boolstr", "x86bool", "hist"],
     "trusted_base": TB_COMMON + [ISA_X86, "type_name grammar as for C09"],
